@@ -123,19 +123,19 @@ Qed.
 
 (* an INLINED discriminator typed as a named string enum: the member returns the discriminator as a value of the
    named type, which the one-of's own typed lookup (`.(string)`) does not accept - Validate rejects what Unserialize
-   returned.  (Inlined discriminators are outside c01_scope.) *)
+   returned.  This is exactly the case c01_scope excludes (disc_plain); every other hypothesis holds. *)
 Definition c01_inl_schema : schema :=
   SOneOf [(KS "a", SObject "A" false [("_type", c01_prop (SEnumStr (Some "Kind") [("a", None)]))])] false "_type" true.
 Definition c01_inl_raw : gval := VMap t_str_map false [(vstr "_type", vstr "a")].
 
 Lemma roundtrip_inlined_named_refuted :
-  exists n, wf_schema c01_env0 c01_inl_schema = true
+  exists n, wf_schema c01_env0 c01_inl_schema = true /\ c01_scope true c01_env0 c01_inl_schema = false
     /\ distinct_in [] c01_nopu 6 c01_env0 c01_inl_schema c01_inl_raw = true
     /\ unser [] c01_nopu 6 c01_env0 c01_inl_schema c01_inl_raw = Ok n /\ ints_in_range n = true /\ any_clean n = true
     /\ forall f', validate [] c01_nopu f' c01_env0 c01_inl_schema n <> Ok tt.
 Proof.
   eexists. split; [vm_compute; reflexivity|]. split; [vm_compute; reflexivity|]. split; [vm_compute; reflexivity|].
-  split; [vm_compute; reflexivity|]. split; [vm_compute; reflexivity|].
+  split; [vm_compute; reflexivity|]. split; [vm_compute; reflexivity|]. split; [vm_compute; reflexivity|].
   apply never_valid; vm_compute; discriminate.
 Qed.
 
@@ -168,6 +168,26 @@ Definition c01_ex1_schema : schema :=
 Definition c01_ex1_raw : gval :=
   VMap t_str_map false [(vstr "kind", vstr "1"); (vstr "x", VInt (TInt U64) 5);
                         (vstr "l", VSlice t_any_slice false [VInt (TInt U8) 1; VInt (TInt U64) 2])].
+
+(* an inlined string discriminator declared by the members (one through a reference into the scope), given as a number *)
+Definition c01_ex2_schema : schema :=
+  SScope [("root", SObject "root" false
+             [("u", c01_prop (SOneOf [(KS "7", SRef "seven" "" None);
+                                      (KS "x", SObject "X" false [("t", c01_prop (SString None None None))])]
+                                     false "t" true))]);
+          ("seven", SObject "seven" false [("t", c01_prop (SEnumStr None [("7", None)])); ("v", c01_prop (SFloat None None None))])]
+         "root".
+Definition c01_ex2_raw : gval :=
+  VMap t_str_map false [(vstr "u", VMap t_str_map false [(vstr "t", VInt (TInt U64) 7); (vstr "v", VInt (TInt I64) (-2))])].
+
+Example roundtrip_inlined_example :
+  exists n, unser [] c01_nopu 9 c01_env0 c01_ex2_schema c01_ex2_raw = Ok n
+            /\ roundtrips_strong [] c01_nopu c01_env0 c01_ex2_schema n 18.
+Proof.
+  eexists. split; [vm_compute; reflexivity|].
+  apply (roundtrip_full [] c01_nopu true c01_env0 c01_ex2_schema 9 c01_ex2_raw);
+    try (vm_compute; reflexivity); intros _; vm_compute; reflexivity.
+Qed.
 
 Example roundtrip_oneof_example :
   exists n, unser [] c01_nopu 8 c01_env0 c01_ex1_schema c01_ex1_raw = Ok n
